@@ -427,3 +427,5 @@ def get_rsvd""", 'C03-R1'),
     ('tt3-writes-block-0', 'nfc.tag.tt3', "            for i in range(1, last_block_number, nbw):", "            for i in range(0, last_block_number, nbw):", 'C03-R4'),
 ]
 MUTANTS = [m for m in MUTANTS if m[4] != 'C03-NONE']
+
+EXPLANATION += ' Round 5: TLV writers folded over layouts (only the length field and free bytes of the data area change, terminator included); control TLV ranges cut only by an address-space constant; image flush folded.'
